@@ -71,12 +71,9 @@ def validator_scans_all(fx):
         L = vb.cfg.loop_of(c.bb)
         exits_ok = L is not None and all(k in ('exhausted', 'err', 'unreachable') for _, _, k in q.loop_exit_kinds(vb, L)) and \
             all(vb.cfg.dominates(c.bb, x) for x, _ in L['back_edges'])       # no `continue` bypasses the lookup
-        prop = False
-        for u in q.calls(vb, 'std::option::Option::ok_or_else'):
-            a0 = q.arg_terms(u)[0]
-            if a0[0] == 'call' and a0[3] == (vb.name, c.bb):
-                fates = q.result_fates(vb, u.dest['l'])
-                prop = bool(fates) and all(f[0] == 'try' for f in fates)
+        # a missing colour ends in Err: `.ok_or_else(..)?`, `match .. { None => return Err(..) }`, `if x.is_none() { return Err }`
+        req = T.option_required(vb, lambda a0: any(x[0] == 'call' and x[3] == (vb.name, c.bb) for x in alts(a0)))
+        prop = bool(req) and L is not None and all(any(vb.cfg.dominates(r_, x) for r_ in req) for x, _ in L['back_edges'])
         if whole and exits_ok and prop:
             cb = fx.body('asefile::palette::ColorPalette::color')
             t = res(cb).ret() if cb is not None else None
@@ -111,13 +108,8 @@ class Inv:
         c = cs[0]
         cid = q.arg_terms(c)[1]
         layer_t = strip_casts(dict(cid[3]).get('layer'))
-        guarded = False
-        for cond, vals, a in q.guards(cv, c.bb):
-            if cond[0] == 'bin' and cond[1] == 'Ge' and strip_casts(cond[2]) == layer_t and q.bool_outcome(cv, a, vals) is False:
-                ln = cond[3]
-                if ln[0] == 'call' and ln[1] in T.LEN and field_path(ln[2][0])[1] == ['layers'] and is_param(field_path(ln[2][0])[0], 2):
-                    if q.arm_always_err(cv, cv.blocks[a]['term']['otherwise']):
-                        guarded = True
+        guarded = T.rejecting_fact(cv, c.bb, lambda op, l, r_: op == 'Lt' and l == layer_t and r_[0] == 'call' and r_[1] in T.LEN and
+                                   field_path(r_[2][0])[1] == ['layers'] and is_param(field_path(r_[2][0])[0], 2))
         for L2 in cv.cfg.loops_containing(c.bb):
             if not all(k in ('exhausted', 'err', 'unreachable') for _, _, k in q.loop_exit_kinds(cv, L2)):
                 return False, 'the validation loop over cels has an early exit'
@@ -157,14 +149,13 @@ class Inv:
         # the requested size is bytes_per_pixel * pixel_count and from_bytes regroups with the same width
         for fn, prim in (('asefile::pixel::RawPixels::from_raw', 'take_bytes'), ('asefile::pixel::RawPixels::from_compressed', 'unzip')):
             b = fx.body(fn)
-            t = expand(res(b).ret(), fx, 1, ('asefile::pixel::RawPixels::from_bytes', 'asefile::pixel::output_size',
+            t = expand(res(b).ret(), fx, 1, ('asefile::pixel::RawPixels::from_bytes', 'asefile::pixel::output_size', 'asefile::file::PixelFormat::bytes_per_pixel',
                                               'asefile::reader::AseReader::take_bytes', 'asefile::reader::AseReader::unzip'))
             good = False
             for x in walk(t):
                 if x[0] == 'call' and x[1] == 'asefile::pixel::RawPixels::from_bytes':
                     src = x[2][0]
-                    if src[0] == 'call' and src[1].endswith(prim) and src[2][1][0] == 'call' and src[2][1][1] == 'asefile::pixel::output_size' \
-                            and is_param(src[2][1][2][0], 2) and is_param(src[2][1][2][1], 3) and is_param(x[2][1], 2):
+                    if src[0] == 'call' and src[1].endswith(prim) and common.is_byte_size(fx, src[2][1], 2, 3) and is_param(x[2][1], 2):
                         good = True
             if not good:
                 probs.append('%s is not from_bytes(%s(output_size(format, count)), format)' % (fn.split('::')[-1], prim))
@@ -451,7 +442,7 @@ class Inv:
             # on the way to the construction `layers.len() <= c` (or `< c + 1`) holds, the other side of that branch is an error
             def pred(cond, truth):
                 for op, l, r_ in q.holds_both(cond, truth):
-                    c = q.const_val(r_)
+                    c = q.const_fold(r_)
                     if l[0] == 'call' and l[1] in T.LEN and is_param(l[2][0], 1) and isinstance(c, int) and \
                             ((op == 'Le' and c <= 65536) or (op == 'Lt' and c <= 65537)):
                         return True
